@@ -950,6 +950,50 @@ impl<'a> Session<'a> {
                 }
             };
             self.out.emit(&line, &ans);
+            // the same replay into a builder that already owns `p` closed variants (oracle only, no model line): the map must pair
+            // source variant k with the variant its own close created, p + k
+            if native_target && def.variants().next().map(|v| v.data().count() > 0).unwrap_or(false) {
+                let p = 1 + self.stats.requests % 2;
+                let res2 = catch(|| {
+                    let mut tgt = NativeRecordDefinitionBuilder::new(truc::record::type_resolver::HostTypeResolver);
+                    for k in 0..p {
+                        tgt.add_datum::<u8, _>(format!("zz_legacy{}", k)).unwrap();
+                        tgt.close_record_variant_with(nvariant::append_data);
+                    }
+                    let m = convert_record_definition(
+                        def,
+                        |b: &mut NativeRecordDefinitionBuilder<truc::record::type_resolver::HostTypeResolver>, d| b.copy_datum(d),
+                        |b, id| b.remove_datum(id),
+                        |b| match st {
+                            Strat::Simple => b.close_record_variant_with(nvariant::simple),
+                            Strat::Basic => b.close_record_variant_with(nvariant::basic),
+                            Strat::Append => b.close_record_variant_with(nvariant::append_data),
+                            _ => b.close_record_variant_with(nvariant::append_data_reverse),
+                        },
+                        &mut tgt,
+                    );
+                    m.map(|m| (m, tgt.build()))
+                });
+                match res2 {
+                    Err(e) => self.ora.hit("C20", format!("replay into a builder that already owns {} variant(s) panicked: {}", p, e)),
+                    Ok(Err(e)) => self.ora.hit("C20", format!("replay into a builder that already owns {} variant(s) was rejected: {}", p, e)),
+                    Ok(Ok((m, t))) => {
+                        let mm: BTreeMap<usize, usize> = m.iter().map(|(a, b)| (vid_of(*a), vid_of(*b))).collect();
+                        let tv: Vec<_> = t.variants().collect();
+                        for (k, v) in def.variants().enumerate() {
+                            match mm.get(&k) {
+                                Some(&tk) if tk == p + k && tk < tv.len() => {
+                                    let mut a: Vec<String> = v.data().map(|d| def[d].name().to_string()).collect();
+                                    let mut b: Vec<String> = tv[tk].data().map(|d| t[d].name().to_string()).filter(|n| !n.starts_with("zz_legacy")).collect();
+                                    a.sort(); b.sort();
+                                    if a != b { self.ora.hit("C20", format!("target already owning {} variant(s): source variant {} holds {:?}, its target variant {} holds {:?}", p, k, a, tk, b)); break; }
+                                }
+                                other => { self.ora.hit("C20", format!("target already owning {} variant(s): the map pairs source variant {} with {:?}, its close created variant {}", p, k, other, p + k)); break; }
+                            }
+                        }
+                    }
+                }
+            }
         }
     }
     fn check_replay(
@@ -1062,7 +1106,9 @@ fn random_history(rng: &mut Rng, out: &mut Out, stats: &mut Stats, hist: usize) 
     let fixed = if rng.chance(1, 2) { Some(*rng.pick(&NATIVE)) } else { None };
     // a few histories at scale: a first variant of 70..140 data, most of them removed in one step
     let scale = hist % 1500 == 700;
-    let nvar = if scale { 2 + rng.below(3) } else { 1 + rng.below(8) };
+    // ... and a few with a step of 260..340 pending additions, some of them cancelled again (in any position, one of them twice)
+    let scale2 = hist % 1500 == 1200;
+    let nvar = if scale || scale2 { 2 + rng.below(3) } else { 1 + rng.below(8) };
     let by_ref = rng.chance(1, 3);
     let mut s = Session::new(out, stats, hist, if native { "native" } else { "generic" }, table, generic_strats, by_ref);
     let mut live: Vec<usize> = vec![];
@@ -1100,7 +1146,7 @@ fn random_history(rng: &mut Rng, out: &mut Out, stats: &mut Stats, hist: usize) 
             }
         }
         let big = rng.chance(1, 4);
-        let nadd = if scale && _v == 0 { 70 + rng.below(70) } else if rng.chance(1, 10) { 0 } else { rng.below(if big { 13 } else { 5 }) };
+        let nadd = if scale && _v == 0 { 70 + rng.below(70) } else if scale2 && _v == 0 { 260 + rng.below(80) } else if rng.chance(1, 10) { 0 } else { rng.below(if big { 13 } else { 5 }) };
         if native && rng.chance(1, 12) { s.unregistered(rng.below(4)); }
         for _ in 0..nadd {
             // invalid requests & lookups sprinkled in
@@ -1140,6 +1186,21 @@ fn random_history(rng: &mut Rng, out: &mut Out, stats: &mut Stats, hist: usize) 
                     }
                 }
             }
+        }
+        // cancellation of pending additions in any position (not only the one just added); sometimes the same one twice (refused)
+        if !pending.is_empty() && (rng.chance(1, 6) || (scale2 && _v == 0)) {
+            let mut last = None;
+            for _ in 0..1 + rng.below(3) {
+                if pending.is_empty() { break; }
+                let id = pending[rng.below(pending.len())];
+                if s.rm(id) {
+                    pending.retain(|&x| x != id);
+                    names_live.retain(|x| x.0 != id);
+                    stale.push(id);
+                    last = Some(id);
+                }
+            }
+            if let Some(id) = last { if rng.chance(1, 2) { s.rm(id); } }
         }
         if chaotic && rng.chance(1, 3) {
             // double removal of a datum already pending removal / lookups by id
